@@ -1,7 +1,7 @@
 """Obligations for C19."""
 from oblib import ob
 
-BOUNDS = {'quick': 'Inside: Flags.Set/Join/Clear/Get/Has for ALL 64-bit presence/value words satisfying the invariant, all argument words and a symbolic key (full width, one inductive step; z3 and cvc5 must agree); v1-then-anything-then-v2 cancellation; Struct.Join + GetOption for all sequences of 1 option (incl. a nested Struct built from 2 options) and of 2 options from {any single boolean flag true/false, Indent, IndentPrefix, ByteLimit, DepthLimit, nil}, against a backwards-scanning last-wins map; option scoping: UnmarshalDecode/MarshalEncode on a long-lived coder with and without call options, inputs with symbolic holes producing errors at any field (incl. string-tagged): coder options identical afterwards, nothing leaked. Outside: longer sequences (thorough: 2 with nesting, 3 without), options not affecting an operation for typed arshal.', 'thorough': 'As quick with sequences of 2 options incl. nested Structs and 3 options without nesting, more scope templates.'}
+BOUNDS = {'quick': 'Inside: Flags.Set/Join/Clear/Get/Has for ALL 64-bit presence/value words satisfying the invariant, all argument words and a symbolic key (full width, one inductive step; z3 and cvc5 must agree); v1-then-anything-then-v2 cancellation; Struct.Join + GetOption for all sequences of 1 option (incl. a nested Struct built from 2 options) and of 2 options from {any single boolean flag true/false, Indent, IndentPrefix, ByteLimit, DepthLimit, nil}, against a backwards-scanning last-wins map; option scoping: UnmarshalDecode/MarshalEncode on a long-lived coder with and without call options, inputs with symbolic holes producing errors at any field (incl. string-tagged): coder options identical afterwards, nothing leaked; explicit-false: for each of 24 boolean options (7 v2, 12 v1, 5 coder) chosen by the solver, Marshal of three values (duration without format, a struct touching byte arrays / nil slice / nil map / string-tagged pointer / omitempty struct and array / interface, a string-tagged string) and Unmarshal of documents with a symbolic hole give the same success and the same bytes/value with no options, with the option passed as false, as true-then-false, and with v1 defaults followed by DefaultOptionsV2. Outside: longer sequences (thorough: 2 with nesting, 3 without), options not affecting an operation for typed arshal.', 'thorough': 'As quick with sequences of 2 options incl. nested Structs and 3 options without nesting, more scope templates.'}
 ASSUMPTIONS = []
 
 
@@ -18,4 +18,12 @@ def obligations(tier):
             L.append(ob("scope/unmarshal/t%d/callopt=%d" % (i, wo), ".", "VerifC19Scope", [t, wo, False], covers=["first-error"], max_seconds=600))
     for wo in (False, True):
         L.append(ob("scope/marshal/callopt=%d" % wo, ".", "VerifC19Scope", ["", wo, True], covers=["first-call"], max_seconds=600))
+    # behavioural last-wins: an option set to false (explicitly, after true, or by v1 defaults then v2 defaults) is as if never passed
+    for mode in range(3):
+        for shape in range(3):
+            L.append(ob("explicit-false/marshal/mode=%d/shape=%d" % (mode, shape), ".", "VerifC19ExplicitFalseMarshal", [mode, shape]))
+    TU = ['{"d":?,"y":"AQI=","sp":"2","oe":{"q":1}}', '{"y":[1,?],"ns":null,"nm":{}}', '{"FLD_NAME":?,"ss":"\\"x\\""}', '{"fld-name":3,"sp":?,"b":"A?=="}', '{"oe":{"q":?},"oe":{},"x":1}']
+    for mode in range(3):
+        for i, t in enumerate(TU if not q else TU[1:4]):
+            L.append(ob("explicit-false/unmarshal/mode=%d/t%d" % (mode, i), ".", "VerifC19ExplicitFalseUnmarshal", [mode, t]))
     return L
